@@ -217,7 +217,10 @@ def run_case(model, rng, version, plan, want, device_id=123456):
         if plan.get("idle_push"):
             # the appliance reports on its own while client A is idle; client B then changes the state; A refreshes
             conn = ac._lan._protocol._transport._conn
-            net.inject(conn, 0.05, bytes(app.lan.response_packet(conn, app.ac.status_frame())))
+            if plan.get("drop"):
+                net.inject(conn, 0.05, "close")              # the appliance closes client A's connection while it is idle
+            else:
+                net.inject(conn, 0.05, bytes(app.lan.response_packet(conn, app.ac.status_frame())))
             net.tick(0.3)
             acb = new_client()
             net.run(acb.refresh())
